@@ -487,6 +487,8 @@ class LibMap:
         if ct is None:
             return None
         args = [a for a in n.get("inner", [])]
+        while args and args[-1].get("kind") == "CXXDefaultArgExpr":
+            args.pop()  # defaulted trailing parameters (allocators, comparators) carry no modelled meaning
         if ct == "vf_str":
             if not args:
                 return "VF_STR_EMPTY"
